@@ -1,6 +1,7 @@
 package checks
 
 import (
+	"encoding/json"
 	"fmt"
 	"math/big"
 	"math/rand"
@@ -568,6 +569,44 @@ func CheckC09(e *fw.Env, l *Lab) {
 		}
 	}
 	checkPauseT(e, "C09")
+	if e.Shard == 1%e.Shards {
+		pausedFromGenesisC09(e)
+	}
+}
+
+// pausedFromGenesisC09: chains that start with paused actions (in any order in the genesis
+// document): the queries report exactly that set and the probes respect it.
+func pausedFromGenesisC09(e *fw.Env) {
+	for _, ids := range [][]string{{"ACTION_SWAP", "ACTION_FEE"}, {"ACTION_FEE", "ACTION_SWAP"}, {"ACTION_FEE"}, {"ACTION_SWAP"}} {
+		bz, _ := json.Marshal(ids)
+		gen := fmt.Sprintf(`{"adapter_genesis":{"params":{"max_passthrough_payload_size":0}},"dispatcher_genesis":{"dispatched_amounts":[],"dispatched_counts":[]},"forwarder_genesis":{"paused_protocol_ids":[],"paused_cross_chain_ids":[]},"executor_genesis":{"paused_action_ids":%s}}`, bz)
+		l, err := NewLab(world.Config{OrbiterGenesis: []byte(gen)})
+		if err != nil {
+			e.Res.Count("genesis-world-not-built")
+			continue
+		}
+		pm := NewPauseModel()
+		for _, id := range ids {
+			pm.Actions[actionByName[id]] = true
+		}
+		hist := map[string]any{"genesis_paused_action_ids": ids}
+		e.Res.Eval()
+		if !comparePauseState(e.Res, "C09", l.W, l.Base, pm, e.R, hist) {
+			continue
+		}
+		probeForwarding(e, "C09", l, l.Base, pm, true, hist)
+		probeForwarding(e, "C09", l, l.Base, pm, false, hist)
+		// and the history goes on from there
+		ctx, _ := l.Base.CacheContext()
+		var h []AdminMsg
+		for s := 0; s < 12; s++ {
+			if !runAdmin(e, "C09", l, ctx, pm, GenExecutorMsg(e.R, l.W, pm), &h) {
+				break
+			}
+		}
+		probeForwarding(e, "C09", l, ctx, pm, true, hist)
+		e.Res.Sig("genesis-paused|%s", strings.Join(ids, ","))
+	}
 }
 
 // checkPauseT repeats a short walk in mode T on a fresh world: every message in its own signed
